@@ -39,6 +39,12 @@ ITERTOOLS_SORTED = {'sorted', 'sorted_by', 'sorted_by_key', 'sorted_unstable', '
                     'sorted_by_cached_key'}
 REDUCE_OK = {'count', 'len', 'any', 'all', 'is_empty', 'size_hint'}
 REDUCE_TYPED = {'sum', 'product', 'min', 'max'}
+# adaptors whose output depends on the *position* of an element in the iteration: everything downstream (even a commutative
+# reduction or a re-keying) then depends on the hash order
+ORDER_SELECT = {'take', 'skip', 'step_by', 'take_while', 'skip_while', 'map_while', 'enumerate', 'zip', 'scan', 'array_chunks',
+                'chunks', 'tuples', 'tuple_windows', 'dedup', 'dedup_by', 'dedup_by_key', 'coalesce', 'group_by', 'chunk_by',
+                'interleave', 'merge', 'batching', 'with_position', 'positions', 'next_chunk', 'advance_by', 'nth_back',
+                'take_while_ref', 'take_while_inclusive', 'skip_last', 'zip_eq', 'zip_longest', 'intersperse', 'tail', 'while_some'}
 REDUCE_BAD = {'fold', 'reduce', 'for_each', 'find', 'find_map', 'position', 'last', 'nth', 'min_by', 'max_by', 'min_by_key',
               'max_by_key', 'try_fold', 'try_for_each', 'join', 'unzip', 'partition', 'next_back', 'nth_back', 'rposition',
               'rfind', 'next_tuple', 'collect_tuple', 'exactly_one', 'at_most_one', 'format', 'format_with'}
@@ -383,29 +389,105 @@ class Analysis:
                 return False, 'the sort key has type %s, which cannot tell more than two elements apart' % kty
             org = mir.provenance(g, 0, follow_all_call_args=True)
             accs = {x.short for x in org.calls if self.prog.resolve(x.callee, g.crate) is not None}
+            ext = sorted({x.short for x in org.calls if self.prog.resolve(x.callee, g.crate) is None and x.short not in KEY_PASS})
             fields = {f for (of, f) in org.fields if of == ''}
+            if ext or org.binops:
+                return False, 'the sort key is derived from the element by %s, so distinct elements can share it' % (
+                    ', '.join(e + '()' for e in ext) or 'arithmetic')
             if (accs and accs <= ident) or (not accs and (self.TOTAL_ELEM.match(kty.lstrip('&')) or fields <= {'0'} and fields)):
                 return True, 'key %s' % (sorted(accs) or kty)
             return False, 'the sort key (%s via %s) is not known to identify an element' % (kty[:40], sorted(accs))
-        # sort_by(|a, b| ...): the comparison must compare an identifying projection of a with the same projection of b
-        cmps = [x for x in g.calls if x.decl.endswith('::cmp') or x.decl.endswith('::partial_cmp')]
+        # sort_by(|a, b| ...): some comparison of the (lexicographic) comparator must compare an identifying projection of a
+        # with the same projection of b; comparisons inside nested closures (`.then_with(|| ..)`) count
+        bodies = [g] + list(self._nested_closures(g))
+        cmps = [(h, x) for h in bodies for x in h.calls if x.decl.endswith('::cmp') or x.decl.endswith('::partial_cmp')]
         if not cmps:
             return False, 'the comparator closure contains no cmp/partial_cmp call'
-        for x in cmps:
-            oa = mir.provenance(g, x.args[0], follow_all_call_args=True)
-            ob = mir.provenance(g, x.args[1], follow_all_call_args=True)
-            accs = {y.short for y in oa.calls + ob.calls if self.prog.resolve(y.callee, g.crate) is not None}
+        why = ''
+        for h, x in cmps:
+            oa = mir.provenance(h, x.args[0], follow_all_call_args=True)
+            ob = mir.provenance(h, x.args[1], follow_all_call_args=True)
+            accs = {y.short for y in oa.calls + ob.calls if self.prog.resolve(y.callee, h.crate) is not None}
+            ext = sorted({y.short for y in oa.calls + ob.calls if self.prog.resolve(y.callee, h.crate) is None and y.short not in KEY_PASS})
             fa = {f for (of, f) in oa.fields if of == ''}
             fb = {f for (of, f) in ob.fields if of == ''}
+            if h is not g:
+                # captured a / b arrive as upvar fields of the nested closure
+                fa = {f for f in fa if not f.isdigit() or h is g}
+                fb = {f for f in fb if not f.isdigit() or h is g}
+            if ext or oa.binops or ob.binops:
+                why = why or 'the comparator orders by a value derived through %s, which distinct elements can share' % (
+                    ', '.join(e + '()' for e in ext) or 'arithmetic')
+                continue
             if accs and not accs <= ident:
-                return False, 'the comparator orders by %s(), which is not known to identify an element' % sorted(accs - ident)
+                why = why or 'the comparator orders by %s(), which is not known to identify an element' % sorted(accs - ident)
+                continue
             if not accs and (fa or fb) and not (fa == fb == {'0'}):
-                return False, 'the comparator compares tuple fields %s/%s' % (sorted(fa), sorted(fb))
+                why = why or 'the comparator compares tuple fields %s/%s' % (sorted(fa), sorted(fb))
+                continue
             if not accs and not fa and not self.TOTAL_ELEM.match(elem.lstrip('&')) and not ident:
-                return False, 'the comparator compares whole elements of type %s' % elem[:40]
-        return True, 'comparator on %s' % (sorted(ident) or 'the key field')
+                why = why or 'the comparator compares whole elements of type %s' % elem[:40]
+                continue
+            return True, 'comparator on %s' % (sorted(ident & accs) or sorted(ident) or 'the key field / whole element')
+        return False, why
+
+    def _nested_closures(self, g, depth=0):
+        if depth > 3:
+            return
+        for b in g.blocks.values():
+            for st in b['stmts']:
+                r = st['r']
+                if r['rv'] == 'agg' and r['kind'].startswith('closure:'):
+                    h = self.prog.by_crate[g.crate].get(r['kind'][len('closure:'):])
+                    if h is not None:
+                        yield h
+                        for x in self._nested_closures(h, depth + 1):
+                            yield x
 
     # ------------------------------------------------------------------ loops
+    ACC_OPS = {'Add', 'AddWithOverflow', 'AddUnchecked', 'Mul', 'MulWithOverflow', 'MulUnchecked', 'BitOr', 'BitAnd', 'BitXor'}
+    ACC_LEFT = {'Sub', 'SubWithOverflow', 'SubUnchecked'}
+
+    def int_accumulate(self, fn, s, body):
+        """is the store `x = ...` an integer accumulation `x = x op e` (op commutative and associative over the iterations,
+        e independent of x) whose running value nothing else in the loop reads?  Returns (True|False, text)."""
+        dl = s['dst']['l']
+        r = s['r']
+        bstmt = None
+        via = None
+        if r['rv'] == 'binop':
+            bstmt = s
+        elif r['rv'] == 'use' and is_place(r['ops'][0]):
+            pl = r['ops'][0]['pl']
+            fl = [e for e in pl['p'] if isinstance(e, dict) and 'f' in e]
+            if len(pl['p']) == 1 and fl and fl[0]['f'] == '0' and 'bool)' in fn.ty.get(pl['l'], ''):
+                ds = [d for d in fn.defs.get(pl['l'], []) if d[0] in body]
+                if len(ds) == 1 and ds[0][2] == 'stmt' and ds[0][3]['r']['rv'] == 'binop':
+                    bstmt = ds[0][3]
+                    via = pl['l']
+        if bstmt is None:
+            return False, 'stores a selected integer value (last writer wins)'
+        op = bstmt['r']['op']
+        ops = bstmt['r']['ops']
+        selfpos = [n for n, o in enumerate(ops) if is_place(o) and o['pl']['l'] == dl and not o['pl']['p']]
+        if not selfpos:
+            return False, 'integer value computed without the previous value (last writer wins)'
+        if not (op in self.ACC_OPS or (op in self.ACC_LEFT and selfpos == [0])):
+            return False, 'integer update by %s is not commutative over the iterations' % op
+        if len(selfpos) != 1:
+            return False, 'integer update uses the accumulator twice'
+        other = ops[1 - selfpos[0]]
+        if is_place(other):
+            org = mir.provenance(fn, other, follow_all_call_args=True)
+            if dl in org.locals:
+                return False, 'the added value itself depends on the accumulator'
+        # nothing else inside the loop may read the running value
+        for (bb, idx, kind, node) in fn.uses_of(dl):
+            if bb not in body or node is bstmt or kind == 'store':
+                continue
+            return False, 'the running value of the accumulator is read inside the loop at %s' % fn.where(node)
+        return True, 'integer accumulation (%s)' % op
+
     def classify_loop(self, fn, header, body, next_call):
         """effects of one hash-ordered loop on state that outlives an iteration; returns list of (verdict, text, where)"""
         iter_l = next_call.arg_local(0)
@@ -458,7 +540,17 @@ class Analysis:
                     continue
                 if r['rv'] in ('ref', 'rawptr') and not through_ptr:
                     continue
-                if r['rv'] == 'binop' and INTTY.search(tyd.replace('(', '').split(',')[0]):
+                if not through_ptr and r['rv'] == 'binop' and tyd.startswith('(') and 'bool)' in tyd:
+                    continue  # the checked-arithmetic temporary; judged where its .0 is stored
+                if not through_ptr and INTTY.search(tyd) and r['rv'] in ('binop', 'use'):
+                    okacc, wacc = self.int_accumulate(fn, s, body)
+                    if okacc:
+                        effects.append(('ok', '%s into %s' % (wacc, fn.describe_local(dl)), fn.where(s)))
+                        continue
+                    if r['rv'] == 'binop':
+                        effects.append(('sens', '%s: outer %s' % (wacc, fn.describe_local(dl)), fn.where(s)))
+                        continue
+                if through_ptr and r['rv'] == 'binop' and INTTY.search(tyd.replace('(', '').split(',')[0]):
                     effects.append(('ok', 'integer update of %s' % fn.describe_local(dl), fn.where(s)))
                     continue
                 if not through_ptr and tyd == '()':
@@ -510,6 +602,11 @@ class Analysis:
                         effects.append(('ok', '%s — lands in a per-element slot (%s)' % (w.split(';')[0], sv), c.where()))
                         continue
                 if v == 'keyed':
+                    root_ty = ' '.join([ty] + root_tys)
+                    if c.short == 'insert' and re.search(r'std::collections::(HashSet|BTreeSet)<', root_ty) and \
+                            not re.search(r'std::collections::(HashMap|BTreeMap)<', ty) and not self._result_read(fn, c):
+                        effects.append(('ok', 'set.insert with the result unused (idempotent and commutative)', c.where()))
+                        continue
                     kv, kw = self.key_provenance(fn, c, body, elem, next_call)
                     effects.append((kv, '%s keyed by %s' % (w, kw), c.where()))
                 else:
@@ -539,6 +636,12 @@ class Analysis:
             effects.append(('exit', 'early exit from the loop (bb%d -> bb%d): which element triggers it first depends on hash order'
                             % (src, dst), fn.where(t) if t else ''))
         return effects
+
+    def _result_read(self, fn, c):
+        dl = c.dst_local()
+        if dl is None:
+            return True
+        return any(kind != 'store' for (bb, idx, kind, node) in fn.uses_of(dl))
 
     def per_element_slot(self, fn, l, body, elem, next_call):
         """is the &mut place `l` obtained, inside the loop body, from a keyed container through the element's own
@@ -673,6 +776,10 @@ class Analysis:
             if dst_h:
                 # adaptor: the type carries the taint; a closure argument that captures &mut state is a hidden loop body
                 self.check_adaptor_closure(fn, c, key)
+                if cn in ORDER_SELECT:
+                    self.emit(fn, c, key('consume', c), 'sens',
+                              '%s on a hash-ordered iterator selects / labels elements by their position in hash order '
+                              '(whatever consumes the result depends on the order)' % cn)
                 continue
             k = key('consume', c)
             if cn in ('drop', 'drop_in_place', 'clone', 'by_ref', 'size_hint'):
